@@ -250,6 +250,8 @@ def run_half_edges(rng, res, idx):
         for q in model.parameters():
             q.copy_(torch.randn(q.shape, generator=g) * 0.5)
     model = model.half()
+    import copy as _copy
+    plain = _copy.deepcopy(model)   # the same model without K-FAC
     with warnings.catch_warnings():
         warnings.simplefilter('ignore')
         fdt = rng.choice([torch.float32, torch.float32, torch.float16])   # float16 factors: the mean second moment fits, a plain sum would not
@@ -257,7 +259,11 @@ def run_half_edges(rng, res, idx):
     xs = rng.choice([1.0, 1.0, 30.0])
     x = (torch.randn(rng.choice([rng.randint(2, 8), 256, 300]), fi, generator=g) * xs).half()
     case['factor_dtype'], case['input_scale'], case['rows'] = str(fdt), xs, int(x.shape[0])
-    model(x).float().pow(2).mean().backward()
+    plain(x).float().pow(2).mean().backward()
+    try:
+        model(x).float().pow(2).mean().backward()
+    except Exception as e:  # noqa: BLE001
+        return res.violation(f'float16 model: with K-FAC registered the forward/backward pass raised {type(e).__name__}: {str(e)[:160]} (the identical model without K-FAC runs)', case)
     with torch.no_grad():   # gradients of the requested magnitude (finite in float16)
         top = max(float(q.grad.float().abs().max()) for q in model.parameters())
         if not top > 0:
